@@ -349,7 +349,10 @@ func (index *PatternIndex) mod(ctx *Context, pairs []piPair, id string, op piOp)
 		for _, x := range sorted {
 			var xPair piPair
 			xPair.key = k
-			xPair.val = picast(ctx, x)
+			// Not cast here: the recursive call casts the
+			// value (and casting nil twice gives "S_null",
+			// which searchPairs never looks for).
+			xPair.val = x
 			morePairs = append(morePairs, xPair)
 		}
 		rest = append(morePairs, rest...)
